@@ -60,9 +60,20 @@ def default(obj: Any, default_: object = "", *, allow_false: bool = False) -> An
     return obj
 
 
+@functools.lru_cache(maxsize=10)
+def _parse_date_string(dat: str, default: datetime.datetime) -> datetime.datetime:
+    """Parse _dat_ with dateutil. Fields missing from _dat_ are taken from _default_.
+
+    Only this step is memoized. Its result is determined by the text of _dat_ and
+    _default_ (midnight of the current day), unlike that of the `date` filter as a
+    whole, which also depends on the type and time zone of its arguments and on the
+    current time.
+    """
+    return parser.parse(dat, default=default)
+
+
 @with_environment
 @liquid_filter
-@functools.lru_cache(maxsize=10)
 def date(  # noqa: PLR0912 PLR0911
     dat: Union[datetime.datetime, str, int],
     fmt: str,
@@ -85,7 +96,12 @@ def date(  # noqa: PLR0912 PLR0911
             dat = datetime.datetime.fromtimestamp(int(dat))
         else:
             try:
-                dat = parser.parse(dat)
+                dat = _parse_date_string(
+                    str(dat),
+                    datetime.datetime.now().replace(
+                        hour=0, minute=0, second=0, microsecond=0
+                    ),
+                )
             except parser.ParserError:
                 # Input is returned unchanged. This is consistent
                 # with the reference implementation.
